@@ -5,7 +5,8 @@ run and restored afterwards; never run concurrently with another check."""
 import json, os, subprocess, sys
 ROOT = os.path.dirname(os.path.dirname(os.path.abspath(__file__)))
 SEEDED = os.path.join(ROOT, "seeded")
-EXTRA = {"C07-2": ["C08"], "C04-1": ["C19"], "C17-2": ["C18"], "C02-1": ["C11"], "C19-2": ["C16"]}
+EXTRA = {"C07-2": ["C08"], "C04-1": ["C19"], "C17-2": ["C18"], "C02-1": ["C11"], "C19-2": ["C16"],
+         "C10-4": ["C11"], "C11-4": ["C02"], "C01-3": ["C04"]}
 def sh(cmd, cwd=None, timeout=3000):
     p = subprocess.run(cmd, shell=True, cwd=cwd, stdout=subprocess.PIPE, stderr=subprocess.STDOUT, timeout=timeout)
     return p.returncode, p.stdout.decode("utf-8", "replace")
